@@ -141,7 +141,10 @@ def run_property(prop, tier, repo, replay=None):
         if und:
             for o in und:
                 print("UNDECIDED " + o.text())
-            raise AnalysisError("%d rule instances undecided" % len(und))
+            kk = {(k["rule"], k["function"], k["construct"]) for k in load_known() if k["property"] == prop and k.get("kind", "known") == "known"}
+            if not any(o.verdict == VIOLATED and o.key() not in kk for o in ctx.obs):
+                raise AnalysisError("%d rule instances undecided" % len(und))
+            # a violation found elsewhere is reported (exit 1) even though other obligations could not be decided on this tree
     except AnalysisError as e:
         print("ANALYSIS-ERROR property=%s %s" % (prop, e))
         write_evidence(ctx, mod, [], [], time.time() - t0, error=str(e))
